@@ -1483,6 +1483,11 @@ pub struct AggregationState {
     key_strides: Vec<usize>,
     /// Group keys in order of first insertion (for output)
     key_order: Vec<GroupKey>,
+    /// Occupancy of the perfect-hash slots: `true` once a row (or a merged
+    /// group) landed in the slot. A slot's recorded key cannot tell a free
+    /// slot from the group whose key is NULL in every column — both read
+    /// "all NULL" — so occupancy is tracked on its own.
+    perfect_used: Vec<bool>,
     /// Total number of slots in perfect_accs
     perfect_capacity: usize,
     /// Whether we overflowed and fell back to HashMap
@@ -1520,6 +1525,7 @@ impl Default for AggregationState {
             key_maps: Vec::new(),
             key_strides: Vec::new(),
             key_order: Vec::new(),
+            perfect_used: Vec::new(),
             perfect_capacity: 0,
             overflowed: false,
             groups: HashMap::new(),
@@ -1638,16 +1644,18 @@ impl AggregationState {
                         values: vec![ScalarValue::Null; n],
                     })
                     .collect();
+                let mut new_used = vec![false; cap];
 
                 for old_idx in 0..old_capacity.min(self.perfect_accs.len()) {
                     if old_idx >= self.key_order.len() {
                         continue;
                     }
                     // Check if this slot has data
-                    let has_data = !self.key_order[old_idx]
-                        .values
-                        .iter()
-                        .all(|v| matches!(v, ScalarValue::Null));
+                    let has_data = self.is_used(old_idx)
+                        || !self.key_order[old_idx]
+                            .values
+                            .iter()
+                            .all(|v| matches!(v, ScalarValue::Null));
                     if !has_data {
                         continue;
                     }
@@ -1676,10 +1684,12 @@ impl AggregationState {
                             values: vec![ScalarValue::Null; n],
                         },
                     );
+                    new_used[new_idx] = true;
                 }
 
                 self.perfect_accs = new_accs;
                 self.key_order = new_key_order;
+                self.perfect_used = new_used;
             } else {
                 // No rehash needed — just extend arrays
                 while self.perfect_accs.len() < cap {
@@ -1720,6 +1730,7 @@ impl AggregationState {
                 }
             }
         }
+        self.mark_used(flat_idx);
 
         Some(flat_idx)
     }
@@ -2212,9 +2223,27 @@ impl AggregationState {
         }
     }
 
+    #[inline]
+    fn mark_used(&mut self, idx: usize) {
+        if self.perfect_used.len() <= idx {
+            self.perfect_used.resize(idx + 1, false);
+        }
+        self.perfect_used[idx] = true;
+    }
+
+    #[inline]
+    fn is_used(&self, idx: usize) -> bool {
+        self.perfect_used.get(idx).copied().unwrap_or(false)
+    }
+
     /// Check if a perfect hash slot has data.
     /// For GROUP BY without aggregates (DISTINCT-like), check key_order instead.
-    fn slot_has_data(key: &GroupKey, accs: &[AccumulatorState]) -> bool {
+    fn slot_has_data(used: bool, key: &GroupKey, accs: &[AccumulatorState]) -> bool {
+        // A slot some row landed in is a group, whatever its key and
+        // accumulators look like (the all-NULL key with COUNT(col) = 0).
+        if used {
+            return true;
+        }
         // A slot whose key was recorded is a real group, even when every
         // accumulator still looks "empty". That happens for legitimate
         // results: COUNT(col) is 0 and MIN/MAX are NULL when the group's
@@ -2256,10 +2285,11 @@ impl AggregationState {
 
     /// Drain perfect hash accumulators into the HashMap fallback
     fn drain_perfect_to_hashmap(&mut self) {
+        let used = std::mem::take(&mut self.perfect_used);
         for (idx, accs) in self.perfect_accs.drain(..).enumerate() {
             if idx < self.key_order.len() {
                 let key = &self.key_order[idx];
-                if Self::slot_has_data(key, &accs) {
+                if Self::slot_has_data(used.get(idx).copied().unwrap_or(false), key, &accs) {
                     self.groups.insert(key.clone(), accs);
                 }
             }
@@ -2274,7 +2304,8 @@ impl AggregationState {
                 .iter()
                 .enumerate()
                 .filter(|(idx, accs)| {
-                    *idx < self.key_order.len() && Self::slot_has_data(&self.key_order[*idx], accs)
+                    *idx < self.key_order.len()
+                        && Self::slot_has_data(self.is_used(*idx), &self.key_order[*idx], accs)
                 })
                 .count()
         } else {
@@ -2483,7 +2514,7 @@ impl AggregationState {
                 if idx >= other.key_order.len() {
                     continue;
                 }
-                if !Self::slot_has_data(&other.key_order[idx], other_accs) {
+                if !Self::slot_has_data(other.is_used(idx), &other.key_order[idx], other_accs) {
                     continue;
                 }
 
@@ -2510,6 +2541,7 @@ impl AggregationState {
                             });
                         }
                         self.key_order[our_idx] = key.clone();
+                        self.mark_used(our_idx);
 
                         for (acc, other_acc) in
                             self.perfect_accs[our_idx].iter_mut().zip(other_accs.iter())
@@ -2572,6 +2604,7 @@ impl AggregationState {
                         });
                     }
                     self.key_order[our_idx] = key.clone();
+                    self.mark_used(our_idx);
                     for (acc, other_acc) in
                         self.perfect_accs[our_idx].iter_mut().zip(other_accs.iter())
                     {
@@ -2708,15 +2741,17 @@ impl AggregationState {
                         values: vec![ScalarValue::Null; n],
                     })
                     .collect();
+                let mut new_used = vec![false; cap];
 
                 for old_idx in 0..old_capacity.min(self.perfect_accs.len()) {
                     if old_idx >= self.key_order.len() {
                         continue;
                     }
-                    let has_data = !self.key_order[old_idx]
-                        .values
-                        .iter()
-                        .all(|v| matches!(v, ScalarValue::Null));
+                    let has_data = self.is_used(old_idx)
+                        || !self.key_order[old_idx]
+                            .values
+                            .iter()
+                            .all(|v| matches!(v, ScalarValue::Null));
                     if !has_data {
                         continue;
                     }
@@ -2743,10 +2778,12 @@ impl AggregationState {
                             values: vec![ScalarValue::Null; n],
                         },
                     );
+                    new_used[new_idx] = true;
                 }
 
                 self.perfect_accs = new_accs;
                 self.key_order = new_key_order;
+                self.perfect_used = new_used;
             } else {
                 while self.perfect_accs.len() < cap {
                     self.perfect_accs.push(
@@ -2810,7 +2847,7 @@ impl AggregationState {
                 if idx >= self.key_order.len() {
                     continue;
                 }
-                if Self::slot_has_data(&self.key_order[idx], accs) {
+                if Self::slot_has_data(self.is_used(idx), &self.key_order[idx], accs) {
                     all_groups.push((&self.key_order[idx], accs));
                 }
             }
